@@ -51,7 +51,8 @@ Lemma op_enum_ok :
   = [XOR; XNOR; AND; OR; INV].
 Proof. vm_compute. reflexivity. Qed.
 
-(* What the circuit-file parsers enforce: [wf] without "no gate writes an input wire". *)
+(* What the circuit-file parsers enforced before /repo commit 407ba55: [wf] without "no gate
+   writes an input wire" (since 407ba55 both parsers reject such a gate: finding F35, fixed). *)
 Definition wf_parser (c : circuit) : bool :=
   (ninputs c <=? nwires c)%nat && (noutputs c <=? nwires c)%nat &&
   wf_gates (nwires c) 0 (init_asg c) (gates c) &&
